@@ -126,6 +126,42 @@ fn run(ctx: &mut Ctx) {
             ctx.nontrivial(d.0);
         }
     });
+    // ---- 1b. short waveforms: every length 1..=40 (the offset / look-ahead grid only partly fits)
+    let per_len = ctx.tier.pick(150, 5000);
+    ctx.cases("short-pads", 40 * per_len, |ctx, i, rng| {
+        ctx.eval();
+        let len = 1 + (i % 40) as usize;
+        let mut sig = gen_waveform(rng, &m.pr, len);
+        if i % 3 == 0 {
+            // mostly negative waveforms (a pulse already under way at sample 0)
+            let a = 10f64.powf(rng.range(0.5, 3.0));
+            for (j, s) in sig.iter_mut().enumerate() {
+                *s += a * m.pr[(j + rng.usize(3)).min(m.pr.len() - 1)];
+                if i % 2 == 0 {
+                    *s = s.round();
+                }
+            }
+        }
+        let got = match guard(|| vh::pad_deconvolution(&sig)) {
+            Ok(g) => g,
+            Err(p) => {
+                ctx.panic_violation("pad_deconvolution", &p, json!({"signal_bits": bits(&sig)}));
+                return;
+            }
+        };
+        let exp = naive_ls(&sig, &m.pr, 3..=5, 7..=12);
+        // a waveform too short for every window: the definition leaves all amplitudes at zero
+        let exp = if exp.is_empty() { vec![0.0; len] } else { exp };
+        if got.len() != len || got.iter().any(|v| !v.is_finite() || *v < 0.0) {
+            ctx.violation("pad deconvolution: wrong length, negative or non-finite amplitude", format!("len {}", len), json!({"signal_bits": bits(&sig)}));
+            return;
+        }
+        if bits(&got) != bits(&exp) {
+            ctx.violation("pad deconvolution differs from the plain greedy definition", format!("short waveform of {} samples", len), json!({"signal_bits": bits(&sig), "signal": sig}));
+            return;
+        }
+        ctx.count("short pad waveforms (1..=40 samples) bit-identical to the naive definition");
+    });
     // ---- 2. wire blocks: shape, finiteness, non-negativity
     let n = ctx.tier.pick(600, 20_000);
     ctx.cases("wire-blocks", n, |ctx, i, rng| {
@@ -252,6 +288,71 @@ fn run(ctx: &mut Ctx) {
                 }
             }
             (Err(p), _) | (_, Err(p)) => ctx.panic_violation("wire deconvolution", &p, json!({})),
+        }
+    });
+    // ---- 2c. "wherever the wire sits on the ring": a block with differing per-wire lengths and a late pulse on its
+    // longest wire gives bit-identical amplitudes whether it wraps the 255/0 seam or not
+    let n = ctx.tier.pick(200, 6000);
+    ctx.cases("wrap-placement", n, |ctx, i, rng| {
+        ctx.eval();
+        let nw = 2 + rng.usize(24);
+        let short = 60 + rng.usize(100);
+        let long = short + 20 + rng.usize(200);
+        let long_pos = match i % 3 {
+            0 => nw - 1,
+            1 => 0,
+            _ => rng.usize(nw),
+        };
+        let k = short + rng.usize(long - short - 18);
+        let a = 10f64.powf(rng.range(1.5, 3.0));
+        let mut sigs: Vec<Vec<f64>> = (0..nw).map(|j| vec![0.0; if j == long_pos { long } else { short - rng.usize(5) }]).collect();
+        for d in -4i32..=4 {
+            let j = long_pos as i32 + d;
+            if j < 0 || j >= nw as i32 {
+                continue;
+            }
+            let f = crate::sim::NF[d.unsigned_abs() as usize];
+            let s = &mut sigs[j as usize];
+            for (q, r) in m.wr.iter().enumerate() {
+                if k + q < s.len() {
+                    s[k + q] += (a * f * r).round();
+                }
+            }
+        }
+        let place = |start: usize| -> Result<Vec<Vec<u64>>, PanicInfo> {
+            let mut arr: [Option<Vec<f64>>; 256] = [(); 256].map(|_| None);
+            for (j, s) in sigs.iter().enumerate() {
+                arr[(start + j) % 256] = Some(s.clone());
+            }
+            guard(|| {
+                let out = vh::wire_deconvolution(&arr);
+                (0..nw).map(|j| out.iter().find(|x| x.0 == (start + j) % 256).map(|x| bits(&x.1)).unwrap_or_default()).collect()
+            })
+        };
+        let plain = place(40 + rng.usize(100));
+        // wrapping placements: the long wire before, at and after the seam
+        for start in [256 - nw + 1 + rng.usize(nw - 1), (256 - long_pos) % 256, (256 + 255 - long_pos) % 256, 256 - 1] {
+            let wrapped = place(start % 256);
+            match (&plain, &wrapped) {
+                (Ok(p), Ok(w)) => {
+                    if p != w {
+                        ctx.violation("wire deconvolution of a block depends on where the block sits on the ring", format!("{} wires, longest ({} samples) at position {} of the block, pulse at sample {}: placement starting at wire {} differs from a placement away from the seam", nw, long, long_pos, k, start % 256), json!({"lengths": sigs.iter().map(|s| s.len()).collect::<Vec<_>>(), "k": k, "a": a, "start": start % 256}));
+                        return;
+                    }
+                    ctx.count("seam-wrapping placements identical to a placement away from the seam");
+                }
+                (Err(pn), _) | (_, Err(pn)) => {
+                    ctx.panic_violation("wire deconvolution", pn, json!({}));
+                    return;
+                }
+            }
+        }
+        // and the pulse itself is recovered on the long wire (its neighbours are physically consistent up to their own length)
+        if let Ok(p) = &plain {
+            let rec = &p[long_pos];
+            if rec.len() != long {
+                ctx.violation("wire deconvolution: output length differs from the channel's input length", String::new(), json!({}));
+            }
         }
     });
     // ---- 3. isolated pulse recovery on every wire
